@@ -2330,6 +2330,16 @@ class Kconfig(object):
                     # New value matches old. No change.
                     continue
 
+                if (
+                    sym.orig_type is HEX
+                    and sym._old_val is not None
+                    and val.startswith(("0x", "0X")) != sym._old_val.startswith(("0x", "0X"))
+                    and (val if val.startswith(("0x", "0X")) else "0x" + val)
+                    == (sym._old_val if sym._old_val.startswith(("0x", "0X")) else "0x" + sym._old_val)
+                ):
+                    # Same output in autoconf.h (which adds a missing 0x). No change.
+                    continue
+
             elif sym._old_val is None:
                 # The symbol wouldn't appear in autoconf.h (because
                 # _write_to_conf is false), and it wouldn't have appeared in
